@@ -166,6 +166,10 @@ def check_deltas(case):
                     "one {} at flat index {} makes {} entries non-finite whose Kaldi delta recursion value is finite (only {} entries are within reach of it)",
                     poke["val"], poke["pos"] % x0.size, int((~np.isfinite(out[~reach])).sum()), int(reach.sum()))
             err = np.where(reach, 0, err)
+        elif scale > 1e300 and mode in post_ref.NUMPY_PAD_MODES:
+            # a pad value computed from data of 2**1020 (the mean of many such samples) may itself overflow: entries whose
+            # reference is not finite are not constrained
+            err = np.where(~np.isfinite(ref), 0, err)
         if x0.dtype.kind == "i":
             tol = 1.0 + 1e-6 * mx
         elif x0.dtype == np.float32:
